@@ -197,9 +197,11 @@ def run(ctx):
             ok = blk is not None
             if ok:
                 st = [nf(s) for s in stmts_of(if_parts(blk)[1]) if s.get('kind') != 'DeclStmt']
-                ok = '(%s = pipefds.%s)' % (prm, child_end) in st and '(%s = pipefds.%s)' % (member, parent_end) in st and 'parent_fds_to_close.emplace(%s)' % prm in st
+                queued = 'parent_fds_to_close.emplace(%s)' % prm in st or 'parent_fds_to_close.insert(%s)' % prm in st or 'parent_fds_to_close.push_back(%s)' % prm in st or \
+                    any(s_.startswith('(parent_fds_to_close[') and s_.endswith('] = %s)' % prm) for s_ in st)
+                ok = '(%s = pipefds.%s)' % (prm, child_end) in st and '(%s = pipefds.%s)' % (member, parent_end) in st and queued
             ctx.check(ok, R, 'ctor|%s-ends' % prm, blk or ctor, 'child gets pipefds.%s, parent keeps pipefds.%s, child end queued for closing in the parent' % (child_end, parent_end), 'pipe ends for %s are assigned or queued wrongly: %s' % (prm, st if blk is not None else None))
-        closer = [s for s in stmts_of(cbd) if s.get('kind') == 'CXXForRangeStmt' and any(canon(x) == 'parent_fds_to_close' for x in walk(s) if x.get('kind') == 'DeclRefExpr')]
+        closer = [s for s in stmts_of(cbd) if s.get('kind') in ('CXXForRangeStmt', 'WhileStmt', 'ForStmt') and any(canon(x) == 'parent_fds_to_close' for x in walk(s) if x.get('kind') == 'DeclRefExpr')]
         fork = [c for c in walk(cbd) if c.get('kind') == 'CallExpr' and call_name(c) == 'fork']
         okp = len(closer) == 1 and len(fork) == 1 and closer[0]['_off'] > fork[0]['_off'] and any(c.get('kind') == 'CallExpr' and call_name(c) == 'close' for c in walk(closer[0]))
         ctx.check(okp, R, 'ctor|parent-closes-child-ends', closer[0] if closer else ctor, 'after fork the parent closes the child-side ends', 'the parent does not close the child-side pipe ends after fork (the child never sees EOF / the parent never sees the pipe close)')
@@ -213,7 +215,18 @@ def run(ctx):
                 d_ = callee_decl(last_[0], u)
                 if d_ is not None and body_of(d_) is not None and not falls_through(body_of(d_)) or (d_ is not None and body_of(d_) is not None and any(c.get('kind') == 'CallExpr' and call_name(c) == '_exit' for c in walk(body_of(d_)))):
                     okch = True
-        ctx.check(okch and cc == ['this.stderr_read_fd', 'this.stdin_write_fd', 'this.stdout_read_fd'], R, 'ctor|child-closes-parent-ends', child or ctor, 'the child closes the parent-side ends and never returns', 'child branch closes %s' % cc)
+        if child is not None and cc != ['this.stderr_read_fd', 'this.stdin_write_fd', 'this.stdout_read_fd']:
+            # close(fd) in a loop over {stdin_write_fd, stdout_read_fd, stderr_read_fd}
+            for lp_ in [x for x in walk(if_parts(child)[1]) if x.get('kind') == 'CXXForRangeStmt']:
+                names_ = sorted({canon(y) for y in walk(lp_) if y.get('kind') == 'MemberExpr' and canon(y).startswith('this.') and canon(y).endswith('_fd')})
+                lv_ = next((v for v in kids(lp_) if v.get('kind') == 'DeclStmt' and any(not (w_.get('name') or '').startswith('__') for w_ in kids(v))), None)
+                lvn = next((w_.get('name') for w_ in kids(lv_) if not (w_.get('name') or '').startswith('__')), None) if lv_ is not None else None
+                if names_ == ['this.stderr_read_fd', 'this.stdin_write_fd', 'this.stdout_read_fd'] and lvn and any(c.get('kind') == 'CallExpr' and call_name(c) == 'close' and nf(call_args(c)[0]) == lvn for c in walk(lp_)):
+                    cc = names_
+        if child is not None and okch and cc != ['this.stderr_read_fd', 'this.stdin_write_fd', 'this.stdout_read_fd'] and any(x.get('kind') in LOOPS for x in walk(if_parts(child)[1])):
+            ctx.undecided(R, 'ctor|child-closes-parent-ends', child, 'the child closes descriptors in a loop this rule does not read (%s)' % cc)
+        else:
+          ctx.check(okch and cc == ['this.stderr_read_fd', 'this.stdin_write_fd', 'this.stdout_read_fd'], R, 'ctor|child-closes-parent-ends', child or ctor, 'the child closes the parent-side ends and never returns', 'child branch closes %s' % cc)
         # run_process closes what is still registered
         for mp in ('read_fd_to_buffer', 'write_fd_to_buffer'):
             cl = [s for s in after if s.get('kind') == 'CXXForRangeStmt' and any(canon(x) == mp for x in walk(s) if x.get('kind') == 'DeclRefExpr') and any(c.get('kind') == 'CallExpr' and call_name(c) == 'close' and nf(call_args(c)[0]).endswith('.first') for c in walk(s))]
